@@ -40,6 +40,7 @@ var (
 	ErrTypeMismatch      = errors.New("types do not match")
 	ErrIntOutOfRange     = errors.New("integer value out of range")
 	ErrSysTableReadOnly  = errors.New("system tables can not be modified")
+	ErrDuplicateColumn   = errors.New("column name specified more than once")
 )
 
 // isSysTable reports whether tableName is one of the catalog tables, which are
@@ -445,6 +446,15 @@ func (rs *RelationService) CreateTable(r *Relation, tableName string) error {
 func (rs *RelationService) createTable(r *Relation, tableName string) error {
 	rs.fs.lockShared()
 	defer rs.fs.unlockShared()
+
+	// a tuple is keyed by column name: two columns with one name would share a value
+	seen := map[string]bool{}
+	for _, fd := range r.Fields {
+		if seen[fd.Name] {
+			return ErrDuplicateColumn
+		}
+		seen[fd.Name] = true
+	}
 
 	_, err := rs.getRelationFileOffset(tableName)
 	if err != ErrTableNotExist {
